@@ -550,8 +550,14 @@ def runtime_agreement(ctx: Ctx, rng: random.Random, cases: list, first_tid: int)
         for solver, method, flags in (("cvode", "dense", []), ("odeint", "rosenbrock4", ["-DODEINT"])):
             d = ctx.scratch / "rt_rhs" / f"{q}_{solver}"
             render(net, solver, method, d)
-            fields = re.findall(r"^\s*(?:double|realtype)\s+(\w+)\s*;", creader.strip_comments((d / "include/naunet_data.h").read_text()), re.M)
-            (d / "include" / "set_fields.inc").write_text("".join(f"        data.{f} = {FIELD_VALUES.get(f, 1.5)!r};\n" for f in fields))
+            fields = re.findall(r"^\s*(?:double|realtype)\s+(\w+)\s*(?:=[^;]*)?;", creader.strip_comments((d / "include/naunet_data.h").read_text()), re.M)
+            # mean molecular weight and adiabatic index are OPTIONAL parameters (-1 = computed from the state): both given, only mu, only gamma
+            fv = dict(FIELD_VALUES)
+            if q % 3 == 1:
+                fv["gamma"] = -1.0
+            elif q % 3 == 2:
+                fv["mu"] = -1.0
+            (d / "include" / "set_fields.inc").write_text("".join(f"        data.{f} = {fv.get(f, 1.5)!r};\n" for f in fields))
             exe = ctx.scratch / f"rhsdrv_{q}_{solver}"
             srcs = [p_ for p_ in sorted((d / "src").glob("*.cpp")) if p_.name != "naunet_renorm.cpp" and p_.name != "naunet.cpp"]
             p = compile_cpp(srcs + [SHIM / "rhs_driver.cpp"], [SHIM / "include", d / "include"], exe, flags)
